@@ -7,6 +7,7 @@ import re
 
 from ..cfg import cfg_of
 from ..core import AnalysisError, call_name, unparse, walk_no_nested
+from ..pattern import body_is, find, has, has_expr
 from ..report import Ctx
 
 #: functions that select rows by integer position (0..n-1): reason
@@ -47,7 +48,11 @@ def run(ctx: Ctx) -> None:
             if rnd:
                 okb = all(len(c.args) >= 2 and unparse(c.args[0]) == '0' and unparse(c.args[1]) == f'len({frame})' for c in rnd)
             else:
-                okb = f'max_index = len({frame}) - 1' in txt or f'range(len({frame}))' in txt
+                okb = has(f.node, f'''
+_MAX = len({frame}) - 1
+if any((_I < 0 or _I > _MAX for _I in a_range)):
+    raise __EXC
+''') or has_expr(f.node, f'range(len({frame}))')
             ctx.add('C13.R1', f'{qn}:bound', okb, (f.file, n.lineno), f'positions are bounded by len({frame})' if okb else f'positions are not bounded by len({frame})', 'bound')
     ctx.floor('C13.R1', 8)
 
@@ -85,18 +90,42 @@ def run(ctx: Ctx) -> None:
     f = D.methods['split']
     cfg = cfg_of(f.node)
     txt = unparse(f.node)
-    loops = [n for n in walk_no_nested(f.node) if isinstance(n, ast.For) and unparse(n.iter) == 'enumerate(the_slices)']
-    ok = False
-    if len(loops) == 1 and isinstance(loops[0].target, ast.Tuple):
-        i, v = (unparse(x) for x in loops[0].target.elts)
-        b = [unparse(s) for s in loops[0].body]
-        ok = b == [f'estimation_sets.append(pd.concat(the_slices[:{i}] + the_slices[{i} + 1:]))', f'validation_sets.append({v})']
-    ctx.add('C13.R3', 'Database.split:folds', ok, f, 'estimation part i = all slices but i, validation part = slice i' if ok else 'construction of the folds changed', 'folds')
-    ok = 'EstimationValidation(estimation=e, validation=v) for e, v in zip(estimation_sets, validation_sets)' in txt
-    ctx.add('C13.R3', 'Database.split:pairing', ok, f, 'estimation and validation parts are paired fold by fold' if ok else 'pairing of the parts changed', 'pairing')
-    ok = 'the_slices = [self.data[self.data[groups].isin(ids)] for ids in the_slices_ids]' in txt and 'the_slices_ids = np.array_split(ids, slices)' in txt and 'ids = self.data[groups].unique()' in txt
+    b = find(f.node, """
+_EST = []
+_VAL = []
+for _I, _V in enumerate(_SL):
+    _EST.append(pd.concat(_SL[:_I] + _SL[_I + 1:]))
+    _VAL.append(_V)
+return __RET
+""")
+    from ..pattern import m_node, _parse
+    if b is not None:
+        # comprehension variables live in their own scope: matched with fresh bindings
+        bb = {'_EST': b['_EST'], '_VAL': b['_VAL']}
+        if not m_node(_parse('[EstimationValidation(estimation=_E, validation=_W) for _E, _W in zip(_EST, _VAL)]')[0].value, b['__RET'][1], bb):
+            b = None
+    ctx.add('C13.R3', 'Database.split:folds', b is not None, f, 'estimation part i = all slices but i, validation part = slice i, paired fold by fold' if b is not None else 'construction or pairing of the folds changed', 'folds')
+    sl = b['_SL'] if b else '_SL'
+    ok = find(f.node, f"""
+if groups is None:
+    ___
+else:
+    _IDS = self.data[groups].unique()
+    ___
+    _SIDS = np.array_split(_IDS, slices)
+    {sl} = __COMP
+""")
+    if ok:
+        bb = {'_SIDS': ok['_SIDS']}
+        ok = m_node(_parse('[self.data[self.data[groups].isin(_X)] for _X in _SIDS]')[0].value, ok['__COMP'][1], bb)
     ctx.add('C13.R3', 'Database.split:groups', ok, f, 'grouped slices contain all rows of the selected group ids' if ok else 'grouped slicing changed', 'groups')
-    ok = 'shuffled = self.data.sample(frac=1)' in txt and 'the_slices = np.array_split(shuffled, slices)' in txt
+    ok = has(f.node, f"""
+if groups is None:
+    _SH = self.data.sample(frac=1)
+    {sl} = np.array_split(_SH, slices)
+else:
+    ___
+""")
     ctx.add('C13.R3', 'Database.split:rows', ok, f, 'ungrouped slices partition a permutation of all rows' if ok else 'ungrouped slicing changed', 'rows')
     # panel: groups = panelColumn dominates the choice between grouped and ungrouped slicing
     setg = [n for n in walk_no_nested(f.node) if isinstance(n, ast.Assign) and unparse(n.targets[0]) == 'groups' and unparse(n.value) == 'self.panelColumn']
